@@ -87,15 +87,18 @@ def worker(mod_json, wseed, nvalues, cfg_kw, spec_name, flags=drv.DEFAULT_FLAGS,
     return acc
 
 
-def eval_case(spec, mod, tname, x, flags=drv.DEFAULT_FLAGS, variant="asan"):
-    """Fresh build + fresh process.  Returns (class or None, text)."""
+def eval_case(spec, mod, tname, x, flags=drv.DEFAULT_FLAGS, variant="asan", probe=False):
+    """Fresh build + fresh process.  Returns (class or None, text).
+    probe=True: the case is the probe of a known finding, by-construction exclusions are off."""
     t = mod.lookup(tname)
     feats = pipeline.type_features(mod, t)
     with drv.ModuleBuild(mod.render(), flags, variant) as mb:
         d = mb.driver(**getattr(spec, "DRIVER_KW", {}))
         try:
             sess = _OneShot(d)
-            res = spec.run_case(sess, mod, tname, t, x, feats, Acc())
+            a = Acc()
+            a.probe = probe
+            res = spec.run_case(sess, mod, tname, t, x, feats, a)
         except drv.DriverCrash as e:
             return "crash", str(e)[-2500:]
         finally:
@@ -116,7 +119,8 @@ class _OneShot:
 def replay_case(spec, case, flags=drv.DEFAULT_FLAGS, variant="asan"):
     mod = Module.from_json(case["module"])
     x = spec.case_from_replay(mod, case)
-    cls, text = eval_case(spec, mod, case["type"], x, tuple(case.get("flags", flags)), variant)
+    cls, text = eval_case(spec, mod, case["type"], x, tuple(case.get("flags", flags)), variant,
+                          probe=bool(case.get("probe")))
     return cls is not None, text
 
 
